@@ -5,7 +5,8 @@
    (a check slower than the timeout counts as Unhealthy). The background task is simulated
    in virtual milliseconds: initial delay, tokio interval with MissedTickBehavior::Skip,
    one spawned check per resource and round, the loop waits for all checks of a round.
-   Selection is a pure function of the published statuses and the round-robin cursor.
+   Selection is a pure function of the published statuses and the round-robin cursor of the accessor
+   (one cursor for get_healthy, one for get_usable).
    No proofs here. *)
 From TR Require Import Lib.Base.
 
@@ -116,6 +117,40 @@ Fixpoint get_many (flt : status -> bool) (s : strategy) (rs : list rstate) (curs
       let (l, c2) := get_many flt s rs c1 k' in
       (r :: l, c2)
   end.
+
+(* calls through the two accessors: one round-robin cursor per accessor (wrapper.round_robin_counter
+   for get_healthy, wrapper.usable_round_robin_counter for get_usable).
+   A call = (true for get_healthy / false for get_usable, the published states it sees). *)
+Definition flt_of (healthy_only : bool) : status -> bool :=
+  if healthy_only then is_healthy else is_usable.
+Fixpoint get_calls (s : strategy) (ch cu : Z) (calls : list (bool * list rstate))
+  : list (option nat) * (Z * Z) :=
+  match calls with
+  | [] => ([], (ch, cu))
+  | (b, rs) :: t =>
+      let (r, c1) := get_with_filter (flt_of b) s rs (if b then ch else cu) in
+      let (l, cc) := get_calls s (if b then c1 else ch) (if b then cu else c1) t in
+      (r :: l, cc)
+  end.
+(* statuses at rest *)
+Definition get_seq (s : strategy) (rs : list rstate) (ch cu : Z) (ops : list bool) :=
+  get_calls s ch cu (map (fun b => (b, rs)) ops).
+(* one accessor alone, each call with the published states it sees *)
+Fixpoint get_one (flt : status -> bool) (s : strategy) (cursor : Z) (rss : list (list rstate))
+  : list (option nat) * Z :=
+  match rss with
+  | [] => ([], cursor)
+  | rs :: t =>
+      let (r, c1) := get_with_filter flt s rs cursor in
+      let (l, c2) := get_one flt s c1 t in
+      (r :: l, c2)
+  end.
+(* the calls of accessor b among a list of calls, and the picks they got *)
+Definition sub_calls (b : bool) (calls : list (bool * list rstate)) : list (list rstate) :=
+  map snd (filter (fun p => Bool.eqb (fst p) b) calls).
+Definition sub_picks (b : bool) (calls : list (bool * list rstate)) (picks : list (option nat))
+  : list (option nat) :=
+  map snd (filter (fun p => Bool.eqb (fst (fst p)) b) (combine calls picks)).
 
 (* ---------------- the background task in virtual time ---------------- *)
 Record config := {
@@ -239,8 +274,31 @@ Definition eff_at (c : config) (orig : list (status * Z)) (k : nat) : status :=
 Definition reach (c : config) (scripts : list (list (status * Z))) (waits : list nat) : sim :=
   fold_left (fun s n => advance c n s) waits (start c scripts).
 
+(* The rule the property states for the status published after one more effective check result x.
+   [upto] = all effective results so far, x included; [before]/[after] = published status before/after.
+   Unhealthy is published iff x is a failure completing a run of failure_threshold failures, Healthy iff
+   x is Healthy and completes a run of success_threshold non-failing results (runs are counted among the
+   results other than Unknown); Degraded at once; Unknown changes nothing; nothing else changes. *)
+Definition flip_rule (f s : Z) (upto : list status) (x before after : status) : Prop :=
+  match x with
+  | Unknown => after = before
+  | Degraded => after = Degraded
+  | Unhealthy =>
+      (all_suffix is_unhealthy (Z.to_nat f) (nonunk upto) -> after = Unhealthy) /\
+      (~ all_suffix is_unhealthy (Z.to_nat f) (nonunk upto) -> after = before)
+  | Healthy =>
+      (all_suffix is_usable (Z.to_nat s) (nonunk upto) -> after = Healthy) /\
+      (~ all_suffix is_usable (Z.to_nat s) (nonunk upto) -> after = before)
+  end.
+(* the status published after the results rs according to that rule alone (no counters) *)
+Inductive published (f s : Z) : list status -> status -> Prop :=
+| pub_nil : published f s [] Unknown
+| pub_snoc : forall rs x before after,
+    published f s rs before -> flip_rule f s (rs ++ [x]) x before after ->
+    published f s (rs ++ [x]) after.
+
 (* ---------------- script interface ----------------
-   script = [n_res; failure_threshold; success_threshold; interval; timeout; initial_delay; strategy;
+   script = [n_res; failure_threshold; success_threshold; interval; timeout; initial_delay; strategy + 16 * route;
              R; n_ev; (status, delay)*R per resource; (op, arg)*n_ev]
    trace: op 0 (advance arg ms, observe): per resource [status; cf; cs; started; finished]
           op 1 / 2 (get_healthy / get_usable arg times): selected resource id or -1 per call *)
@@ -268,18 +326,20 @@ Definition observe (s : sim) : list Z :=
 Definition enc_sel (o : option nat) : Z :=
   match o with Some i => Z.of_nat i | None => -1 end.
 
-Fixpoint run_events (c : config) (sg : strategy) (evs : list (Z * Z)) (s : sim) (cursor : Z) : list Z :=
+Fixpoint run_events (c : config) (sg : strategy) (evs : list (Z * Z)) (s : sim) (ch cu : Z) : list Z :=
   match evs with
   | [] => []
   | (op, arg) :: t =>
       if op =? 0 then
         let s' := advance c (Z.to_nat arg) s in
-        observe s' ++ run_events c sg t s' cursor
-      else if (op =? 1) || (op =? 2) then
-        let (l, cur') := get_many (if op =? 1 then is_healthy else is_usable) sg
-                                  (map r_state (rsims s)) cursor (Z.to_nat arg) in
-        map enc_sel l ++ run_events c sg t s cur'
-      else run_events c sg t s cursor
+        observe s' ++ run_events c sg t s' ch cu
+      else if op =? 1 then
+        let (l, ch') := get_many is_healthy sg (map r_state (rsims s)) ch (Z.to_nat arg) in
+        map enc_sel l ++ run_events c sg t s ch' cu
+      else if op =? 2 then
+        let (l, cu') := get_many is_usable sg (map r_state (rsims s)) cu (Z.to_nat arg) in
+        map enc_sel l ++ run_events c sg t s ch cu'
+      else run_events c sg t s ch cu
   end.
 
 Definition run_script (s : list Z) : list Z :=
@@ -293,4 +353,38 @@ Definition run_script (s : list Z) : list Z :=
                       (seq 0 r)) (seq 0 n) in
   let evs := map (fun j => (zn s (9 + 2 * n * r + 2 * j), zn s (9 + 2 * n * r + 2 * j + 1)))
                  (seq 0 n_ev) in
-  run_events c (strategy_of (zn s 6)) evs (start c scripts) 0.
+  (* zn s 6 = strategy + 16 * configuration route (the route - wrapper setters, HealthCheckConfig::builder()
+     + with_config, with_config then setters, setters then with_config - must not matter) *)
+  run_events c (strategy_of (zn s 6 mod 16)) evs (start c scripts) 0 0.
+
+(* ---------------- vocabulary for trace-level statements (definitions only) ---------------- *)
+(* one script event: state of the simulated wrapper and of the two cursors after it, and what it prints *)
+Definition ev_step (c : config) (sg : strategy) (sc : sim * (Z * Z)) (e : Z * Z) : sim * (Z * Z) :=
+  let (op, arg) := e in
+  let rs := map r_state (rsims (fst sc)) in
+  if op =? 0 then (advance c (Z.to_nat arg) (fst sc), snd sc)
+  else if op =? 1 then
+    (fst sc, (snd (get_many is_healthy sg rs (fst (snd sc)) (Z.to_nat arg)), snd (snd sc)))
+  else if op =? 2 then
+    (fst sc, (fst (snd sc), snd (get_many is_usable sg rs (snd (snd sc)) (Z.to_nat arg))))
+  else sc.
+Definition ev_out (c : config) (sg : strategy) (sc : sim * (Z * Z)) (e : Z * Z) : list Z :=
+  let (op, arg) := e in
+  let rs := map r_state (rsims (fst sc)) in
+  if op =? 0 then observe (advance c (Z.to_nat arg) (fst sc))
+  else if op =? 1 then map enc_sel (fst (get_many is_healthy sg rs (fst (snd sc)) (Z.to_nat arg)))
+  else if op =? 2 then map enc_sel (fst (get_many is_usable sg rs (snd (snd sc)) (Z.to_nat arg)))
+  else [].
+(* the waits (op 0 arguments) of a list of events *)
+Definition ev_waits (evs : list (Z * Z)) : list nat :=
+  flat_map (fun e => if fst e =? 0 then [Z.to_nat (snd e)] else []) evs.
+(* all accessor calls of a list of events, each with the published states it sees *)
+Fixpoint ev_calls (c : config) (evs : list (Z * Z)) (s : sim) : list (bool * list rstate) :=
+  match evs with
+  | [] => []
+  | (op, arg) :: t =>
+      if op =? 0 then ev_calls c t (advance c (Z.to_nat arg) s)
+      else if (op =? 1) || (op =? 2) then
+        repeat (op =? 1, map r_state (rsims s)) (Z.to_nat arg) ++ ev_calls c t s
+      else ev_calls c t s
+  end.
